@@ -12,6 +12,7 @@ package main
 
 import (
 	"fmt"
+	"go/types"
 	"sort"
 	"strings"
 )
@@ -83,8 +84,10 @@ func (s *State) layoutOf(e *Expr, depth int) ([]seg, string) {
 	out = mergeOctetPairs(out)
 	// no empty byte strings, adjacent gaps merged
 	var norm []seg
-	for _, g := range out {
-		if g.Kind == "bytes" {
+	for i, g := range out {
+		// (a trailing byte string stays a segment even when it is known to be
+		// empty in this state: "…, len(x), x" with x empty is still that shape)
+		if g.Kind == "bytes" && i != len(out)-1 {
 			if v, ok := s.rangeOf(mkLen(g.Val)).IsConst(); ok && v == 0 {
 				continue
 			}
@@ -214,39 +217,91 @@ func matchLayout(l []seg, pats []segPat) (bool, string) {
 	return true, ""
 }
 
+// octetOf decomposes an 8-bit term as "bits [shift, shift+8) of x": any chain
+// of conversions down to 8 bits, an optional right shift by a constant, and
+// below it only conversions that keep those bits (no narrowing under
+// shift+8 bits on either side).
+func octetOf(e *Expr) (x *Expr, shift int64, ok bool) {
+	if e == nil {
+		return nil, 0, false
+	}
+	for e.Op == "conv" {
+		e = e.Args[0]
+	}
+	if e.Op == "bin" && e.binOp() == ">>" {
+		c, isC := e.Args[1].IsConst()
+		if !isC || c < 0 {
+			return nil, 0, false
+		}
+		shift = c
+		e = e.Args[0]
+	}
+	keeps := func(t types.Type) bool {
+		ti := intTypeInfo(t)
+		return ti.ok && int64(ti.bits) >= shift+8
+	}
+	if !keeps(e.Typ) {
+		return nil, 0, false
+	}
+	for e.Op == "conv" && keeps(e.Args[0].Typ) {
+		e = e.Args[0]
+	}
+	return e, shift, true
+}
+
+// beOctets recognises n consecutive octet terms as the big-endian encoding of
+// one n*8-bit value.
+func beOctets(vals []*Expr) (*Expr, bool) {
+	n := int64(len(vals))
+	var x *Expr
+	for k, v := range vals {
+		y, sh, ok := octetOf(v)
+		if !ok || sh != 8*(n-1-int64(k)) {
+			return nil, false
+		}
+		if x == nil {
+			x = y
+		} else if x.Key != y.Key {
+			return nil, false
+		}
+	}
+	if x == nil || !intTypeInfo(x.Typ).ok || int64(intTypeInfo(x.Typ).bits) != 8*n {
+		return nil, false
+	}
+	return x, true
+}
+
 // mergeOctetPairs rewrites byte(uint8(x>>8)) ++ byte(uint8(x)) as be16(x)
 // (and the four-octet analogue as be32(x)).
 func mergeOctetPairs(in []seg) []seg {
-	strip := func(e *Expr) *Expr {
-		for e != nil && e.Op == "conv" {
-			e = e.Args[0]
-		}
-		return e
-	}
-	shifted := func(e *Expr) (*Expr, int64, bool) {
-		e = strip(e)
-		if e == nil {
-			return nil, 0, false
-		}
-		if e.Op == "bin" && e.binOp() == ">>" {
-			if c, ok := e.Args[1].IsConst(); ok {
-				return strip(e.Args[0]), c, true
-			}
-		}
-		return e, 0, true
-	}
 	var out []seg
 	for i := 0; i < len(in); i++ {
-		if in[i].Kind == "byte" && i+1 < len(in) && in[i+1].Kind == "byte" {
-			x0, s0, ok0 := shifted(in[i].Val)
-			x1, s1, ok1 := shifted(in[i+1].Val)
-			if ok0 && ok1 && s0 == 8 && s1 == 0 && x0 != nil && x1 != nil && x0.Key == x1.Key && intTypeInfo(x0.Typ).ok && intTypeInfo(x0.Typ).bits == 16 {
-				out = append(out, seg{"be16", x0, 2})
-				i++
+		merged := false
+		for _, n := range []int{4, 2} {
+			if i+n > len(in) {
 				continue
 			}
+			var vals []*Expr
+			for _, g := range in[i : i+n] {
+				if g.Kind != "byte" {
+					vals = nil
+					break
+				}
+				vals = append(vals, g.Val)
+			}
+			if len(vals) != n {
+				continue
+			}
+			if x, ok := beOctets(vals); ok {
+				out = append(out, seg{map[int]string{2: "be16", 4: "be32"}[n], x, int64(n)})
+				i += n - 1
+				merged = true
+				break
+			}
 		}
-		out = append(out, in[i])
+		if !merged {
+			out = append(out, in[i])
+		}
 	}
 	return out
 }
